@@ -3,5 +3,5 @@ Require Extraction.
 Require Import ExtrOcamlBasic.
 Extraction Language OCaml.
 Extraction "../ocaml/c07/model.ml" util_add util_mul util_divmod
-  empty_membership m_get m_set m_is_empty handle_ascii rule_vector_ascii address_equal_ascii
+  empty_membership m_get m_set m_is_empty handle_ascii address_equal_ascii
   run_ascii observe kind_of cc_type_codes.
